@@ -97,6 +97,14 @@ def run(n, events):
         W.append(w)
         lost.append(False)
 
+    def lose(k):
+        '''connectionLost as the reactor calls it: an exception escaping it
+        is logged by Twisted and is the end of the story (observation 7)'''
+        try:
+            W[k].connectionLost(None)
+        except Exception:  # pylint: disable=broad-except
+            log.append([7, k])
+
     def deliver(k, cmd):
         w = W[k]
         if w.transport.closed or lost[k]:
@@ -106,7 +114,7 @@ def run(n, events):
         except Exception:  # pylint: disable=broad-except
             log.append([6, k])
             lost[k] = True
-            w.connectionLost(None)
+            lose(k)
 
     obs = []
     for ev, k in events:
@@ -126,7 +134,7 @@ def run(n, events):
             elif ev == 'D':
                 if not lost[k]:
                     lost[k] = True
-                    w.connectionLost(None)
+                    lose(k)
             elif ev == 'T':
                 for i, (owner, thunk) in enumerate(PENDING):
                     if owner is lc:
